@@ -1,6 +1,6 @@
 #!/bin/bash
 # run every seeded change against the check of its property (4 at a time); summary at the end
-cd /verif
+cd "$(dirname "$0")/.."
 ls -d seeded/*/ | xargs -n1 basename | xargs -P4 -I{} sh -c '/venv/bin/python tools/seeded.py seeded/{} --skip-confirm > /tmp/seedall_{}.log 2>&1'
 /venv/bin/python - <<'PY'
 import json, glob, os
